@@ -2,6 +2,7 @@ package object
 
 import (
 	"fmt"
+	"slices"
 
 	enc "github.com/named-data/ndnd/std/encoding"
 	"github.com/named-data/ndnd/std/log"
@@ -78,6 +79,12 @@ func (s *rrSegFetcher) doCheck() {
 		return
 	}
 
+	// lazy remove completed streams; this is done before the round-robin scan because
+	// removing the stream remembered as "first" inside the loop made the scan spin forever
+	s.streams = slices.DeleteFunc(s.streams, func(state *ConsumeState) bool {
+		return state.complete
+	})
+
 	// we have a lock, so this has to break at some point
 	var state *ConsumeState = nil
 	var first *ConsumeState = nil
@@ -91,12 +98,6 @@ func (s *rrSegFetcher) doCheck() {
 			first = state
 		} else if state == first {
 			return // we've gone full circle
-		}
-
-		if state.complete {
-			// lazy remove completed streams
-			s.remove(state)
-			continue
 		}
 
 		// if we don't know the segment count, wait for the first segment
